@@ -16,6 +16,15 @@ pub struct SimNode {
     pub cfg: Config,
     pub store: MemStorage,
     pub sstore: SimStorage,
+    /// the durable image of the storage: what a crash leaves behind (a separate MemStorage fed
+    /// with the same operations, later for asynchronously persisted Readies)
+    pub durable: MemStorage,
+    /// every operation applied to `durable`, in order (a crash rebuilds the live store from it)
+    pub durable_ops: Vec<StoreOp>,
+    /// Readies written to the live store (advance_append_async) and not yet fsynced
+    pub unsynced: VecDeque<ReadyView>,
+    pub init_cs: (Vec<u64>, Vec<u64>),
+    pub sim_snap: bool,
     pub driver: Option<Driver>,
     /// applied index of the simulated state machine (durable together with the store)
     pub applied: u64,
@@ -25,6 +34,56 @@ pub struct SimNode {
     pub async_pending: VecDeque<(u64, Vec<Message>)>,
     /// committed entries handed out and not yet applied
     pub to_apply: VecDeque<Entry>,
+}
+
+/// A storage write of the simulated application.
+#[derive(Clone)]
+pub enum StoreOp {
+    Snapshot(Snapshot),
+    Append(Vec<Entry>),
+    HardState(u64, u64, u64),
+    Commit(u64),
+    ConfState(ConfState),
+    Compact(u64),
+}
+
+pub fn apply_op(st: &MemStorage, op: &StoreOp) {
+    let mut w = st.wl();
+    match op {
+        StoreOp::Snapshot(s) => {
+            let _ = w.apply_snapshot(s.clone());
+        }
+        StoreOp::Append(e) => {
+            let _ = catch(|| w.append(e));
+        }
+        StoreOp::HardState(t, v, c) => {
+            let hs = w.mut_hard_state();
+            hs.term = *t;
+            hs.vote = *v;
+            hs.commit = *c;
+        }
+        StoreOp::Commit(c) => {
+            w.mut_hard_state().commit = *c;
+        }
+        StoreOp::ConfState(cs) => w.set_conf_state(cs.clone()),
+        StoreOp::Compact(i) => {
+            let _ = catch(|| w.compact(*i));
+        }
+    }
+}
+
+pub fn ready_ops(rv: &ReadyView) -> Vec<StoreOp> {
+    let mut v = vec![];
+    if rv.snapshot.get_metadata().index != 0 {
+        v.push(StoreOp::Snapshot(rv.snapshot.clone()));
+    }
+    if !rv.entries.is_empty() {
+        v.push(StoreOp::Append(rv.entries.clone()));
+    }
+    if let Some((t, vv, c)) = rv.hs {
+        v.push(StoreOp::HardState(t, vv, c));
+    }
+    v
 }
 
 pub struct Recorder {
@@ -179,7 +238,9 @@ impl Sim {
             }
             let store = MemStorage::new_with_conf_state((voters.clone(), learners.clone()));
             let sstore = SimStorage::new(store.clone(), sim_snap);
-            self.nodes.push(SimNode { id: *id, cfg, store, sstore, driver: None, applied: 0, reported: 0, async_pending: VecDeque::new(), to_apply: VecDeque::new() });
+            let durable = MemStorage::new_with_conf_state((voters.clone(), learners.clone()));
+            self.nodes.push(SimNode { id: *id, cfg, store, sstore, durable, durable_ops: vec![], unsynced: VecDeque::new(),
+                init_cs: (voters.clone(), learners.clone()), sim_snap, driver: None, applied: 0, reported: 0, async_pending: VecDeque::new(), to_apply: VecDeque::new() });
         }
         for i in 0..self.nodes.len() {
             self.start(i);
@@ -216,7 +277,49 @@ impl Sim {
         raft::verif_raft::set_timeout_seed(Some(self.rng.next() | 1));
         n.sstore.set_applied(n.applied);
         let r = catch(|| RawNode::new(&cfg, n.sstore.clone(), &logger()));
-        let _ = raft::verif_raft::take_draws();
+        let draws: Vec<u64> = raft::verif_raft::take_draws().into_iter().map(|x| x as u64).collect();
+        if self.rec.enabled {
+            let (case_line, impl_line) = new_case(&cfg, &n.sstore, &draws, &r);
+            let o = CallOutcome { case_line, impl_line, panicked: None, ret_code: 0, ready: None, light: None, conf_state: None, flag: false };
+            let meta = format!("new {} {}", n.applied, match &r { Ok(Ok(_)) => "ok", Ok(Err(_)) => "err", Err(_) => "panic" });
+            self.rec.put(&o, &meta);
+            // a second, perturbed configuration over the same storage (mostly rejected or panicking;
+            // not used by the simulation itself): exercises Config::validate and the start-up checks
+            if self.rng.chance(1, 2) {
+                let mut c2 = cfg.clone();
+                match self.rng.below(12) {
+                    0 => c2.id = 0,
+                    1 => c2.heartbeat_tick = 0,
+                    2 => c2.election_tick = c2.heartbeat_tick,
+                    3 => c2.min_election_tick = c2.election_tick.saturating_sub(1).max(1),
+                    4 => {
+                        c2.min_election_tick = c2.election_tick + 2;
+                        c2.max_election_tick = c2.election_tick + self.rng.below(4) as usize;
+                    }
+                    5 => c2.max_inflight_msgs = 0,
+                    6 => {
+                        c2.read_only_option = raft::ReadOnlyOption::LeaseBased;
+                        c2.check_quorum = false;
+                    }
+                    7 => c2.max_uncommitted_size = c2.max_size_per_msg.saturating_sub(1),
+                    8 => c2.applied = self.rng.below(12),
+                    9 => c2.applied = n.applied + 1 + self.rng.below(3),
+                    10 => {
+                        c2.min_election_tick = c2.election_tick + self.rng.below(3) as usize;
+                        c2.max_election_tick = c2.min_election_tick + 1 + self.rng.below(5) as usize;
+                    }
+                    _ => c2.max_apply_unpersisted_log_limit = self.rng.below(4),
+                }
+                raft::verif_raft::set_timeout_seed(Some(self.rng.next() | 1));
+                let st2 = n.sstore.clone();
+                let r2 = catch(|| RawNode::new(&c2, st2, &logger()));
+                let d2: Vec<u64> = raft::verif_raft::take_draws().into_iter().map(|x| x as u64).collect();
+                let (case_line, impl_line) = new_case(&c2, &n.sstore, &d2, &r2);
+                let o = CallOutcome { case_line, impl_line, panicked: None, ret_code: 0, ready: None, light: None, conf_state: None, flag: false };
+                let meta = format!("new-perturbed {} {}", c2.applied, match &r2 { Ok(Ok(_)) => "ok", Ok(Err(_)) => "err", Err(_) => "panic" });
+                self.rec.put(&o, &meta);
+            }
+        }
         match r {
             Ok(Ok(node)) => {
                 let (t, v) = (node.raft.term, node.raft.vote);
@@ -356,10 +459,14 @@ impl Sim {
         let limit = if upto_all { usize::MAX } else { 1 + self.rng.below(3) as usize };
         let mut k = 0;
         while k < limit {
-            let e = match self.nodes[i].to_apply.pop_front() {
-                Some(e) => e,
-                None => break,
-            };
+            // the application applies an entry only once the commit index covering it is durable
+            // (the crate's documentation: persist the commit index with or before applying)
+            let dcommit = self.nodes[i].durable.initial_state().unwrap().hard_state.commit;
+            match self.nodes[i].to_apply.front() {
+                Some(e) if e.index <= dcommit => {}
+                _ => break,
+            }
+            let e = self.nodes[i].to_apply.pop_front().unwrap();
             k += 1;
             if self.mon.is_some() {
                 self.with_mon(|m, s| m.on_apply(s, i, &e));
@@ -378,7 +485,7 @@ impl Sim {
             if let Some(cc) = cc {
                 if let Some(o) = self.call(i, Call::ApplyConfChange(cc)) {
                     if let Some(cs) = o.conf_state {
-                        self.nodes[i].store.wl().set_conf_state(cs);
+                        self.store_op(i, StoreOp::ConfState(cs), true);
                     }
                 } else {
                     return;
@@ -402,39 +509,81 @@ impl Sim {
         }
     }
 
-    pub(crate) fn write_ready(&mut self, i: usize, rv: &ReadyView) {
+    /// Applies an operation to the live store and (always for application-level state) to the durable one.
+    fn store_op(&mut self, i: usize, op: StoreOp, durable_too: bool) {
+        apply_op(&self.nodes[i].store, &op);
+        if durable_too {
+            apply_op(&self.nodes[i].durable, &op);
+            self.nodes[i].durable_ops.push(op);
+        }
+    }
+
+    /// Writes a Ready to the live store; `sync` also makes it durable at once, otherwise it is
+    /// fsynced later (`fsync_one`) and a crash before that loses it.
+    pub(crate) fn write_ready(&mut self, i: usize, rv: &ReadyView, sync: bool) {
+        for op in ready_ops(rv) {
+            apply_op(&self.nodes[i].store, &op);
+        }
         let n = &mut self.nodes[i];
-        let mut st = n.store.wl();
         if rv.snapshot.get_metadata().index != 0 {
-            let _ = st.apply_snapshot(rv.snapshot.clone());
             n.applied = rv.snapshot.get_metadata().index;
             n.sstore.set_applied(n.applied);
             n.to_apply.clear();
         }
-        if !rv.entries.is_empty() {
-            let _ = catch(|| st.append(&rv.entries));
+        if self.mon.is_some() {
+            self.with_mon(|m, s| m.on_write(s, i, rv));
         }
-        if let Some((t, v, c)) = rv.hs {
-            let hs = st.mut_hard_state();
-            hs.term = t;
-            hs.vote = v;
-            hs.commit = c;
+        self.nodes[i].unsynced.push_back(rv.clone());
+        if sync {
+            while !self.nodes[i].unsynced.is_empty() {
+                self.fsync_one(i);
+            }
+        }
+    }
+
+    /// The oldest written Ready becomes durable.
+    pub(crate) fn fsync_one(&mut self, i: usize) {
+        let rv = match self.nodes[i].unsynced.pop_front() {
+            Some(rv) => rv,
+            None => return,
+        };
+        for op in ready_ops(&rv) {
+            apply_op(&self.nodes[i].durable, &op);
+            self.nodes[i].durable_ops.push(op);
+        }
+        let n = &self.nodes[i];
+        if let Some((t, v, _)) = rv.hs {
             self.pt.fsync(n.id, t, v);
         }
-        drop(st);
         if self.pt.enabled {
-            let first = n.store.first_index().unwrap();
-            let last = n.store.last_index().unwrap();
+            let first = n.durable.first_index().unwrap();
+            let last = n.durable.last_index().unwrap();
             let ents = if last + 1 > first {
-                n.store.entries(first, last + 1, None, raft::GetEntriesContext::empty(false)).unwrap()
+                n.durable.entries(first, last + 1, None, raft::GetEntriesContext::empty(false)).unwrap()
             } else {
                 vec![]
             };
             self.pt.durable(n.id, first, &ents);
         }
-        if self.mon.is_some() {
-            self.with_mon(|m, s| m.on_write(s, i, rv));
+    }
+
+    /// A crash: the live store is rebuilt from the durable operations; written-but-unfsynced
+    /// Readies are lost.
+    pub(crate) fn lose_unsynced(&mut self, i: usize) {
+        let n = &mut self.nodes[i];
+        let fresh = MemStorage::new_with_conf_state(n.init_cs.clone());
+        for op in &n.durable_ops {
+            apply_op(&fresh, op);
         }
+        n.store = fresh;
+        n.sstore = SimStorage::new(n.store.clone(), n.sim_snap);
+        n.unsynced.clear();
+        // the state machine cannot be ahead of what the durable log holds
+        let last = n.durable.last_index().unwrap();
+        if n.applied > last {
+            n.applied = last;
+        }
+        n.sstore.set_applied(n.applied);
     }
 
     /// One synchronous or asynchronous Ready round on node i.
@@ -455,11 +604,12 @@ impl Sim {
         };
         let rv = o.ready.unwrap();
         self.send(i, rv.messages.clone());
-        self.write_ready(i, &rv);
+        // the write is durable at once in the synchronous modes; asynchronous Readies are fsynced later
+        let mode = self.rng.below(10);
+        self.write_ready(i, &rv, mode < 7);
         for e in &rv.committed_entries {
             self.nodes[i].to_apply.push_back(e.clone());
         }
-        let mode = self.rng.below(10);
         if mode < 5 {
             // sync: handle committed entries, then advance (which reports applied itself)
             self.send(i, rv.persisted_messages.clone());
@@ -492,7 +642,7 @@ impl Sim {
     pub(crate) fn after_light(&mut self, i: usize, o: CallOutcome) {
         if let Some(l) = o.light {
             if let Some(c) = l.commit_index() {
-                self.nodes[i].store.wl().mut_hard_state().commit = c;
+                self.store_op(i, StoreOp::Commit(c), true);
             }
             self.send(i, l.messages().to_vec());
             for e in l.committed_entries() {
@@ -514,6 +664,7 @@ impl Sim {
             let (n, m) = self.nodes[i].async_pending.pop_front().unwrap();
             num = n;
             msgs.extend(m);
+            self.fsync_one(i);
         }
         if self.call(i, Call::OnPersistReady(num)).is_some() {
             self.send(i, msgs);
@@ -568,8 +719,14 @@ impl Sim {
         if n.applied > first {
             let to = first + 1 + self.rng.below(n.applied - first);
             // the snapshot point a leader would ship must be the compaction point's commit
-            let _ = catch(|| n.store.wl().compact(to));
             let id = n.id;
+            // never compact beyond what is durably committed in the durable image
+            let dc = n.durable.initial_state().unwrap().hard_state.commit;
+            if to > dc {
+                return;
+            }
+            let durable_too = to <= n.durable.last_index().unwrap() && to > n.durable.first_index().unwrap();
+            self.store_op(i, StoreOp::Compact(to), durable_too);
             self.note(|| format!("{} compact store to {}", id, to));
         }
     }
@@ -620,7 +777,35 @@ impl Sim {
                     self.apply_entries(i, false, true);
                 }
             }
-            770..=839 => {
+            770..=779 => {
+                // a batched proposal (as an application may forward): several entries in one
+                // MsgPropose, membership changes anywhere in the batch
+                let t = self.leader().filter(|_| !self.rng.chance(1, 5)).unwrap_or(i);
+                let k = 2 + self.rng.below(3);
+                let mut ents = vec![];
+                for _ in 0..k {
+                    let mut e = Entry::default();
+                    if self.rng.chance(2, 5) {
+                        let (ty, data) = match self.random_cc() {
+                            CcKind::V1(cc) => (EntryType::EntryConfChange, cc.write_to_bytes().unwrap()),
+                            CcKind::V2(cc) => (EntryType::EntryConfChangeV2, cc.write_to_bytes().unwrap()),
+                            CcKind::Raw(t, d) => (if t == 1 { EntryType::EntryConfChange } else { EntryType::EntryConfChangeV2 }, d),
+                        };
+                        e.set_entry_type(ty);
+                        e.data = data.into();
+                    } else {
+                        e.data = self.payload().into();
+                    }
+                    ents.push(e);
+                }
+                let mut m = Message::default();
+                m.set_msg_type(MessageType::MsgPropose);
+                m.from = 1 + self.rng.below(nn as u64);
+                m.to = self.nodes[t].id;
+                m.set_entries(ents.into());
+                self.call(t, Call::Step(m));
+            }
+            780..=839 => {
                 let t = self.leader().filter(|_| !self.rng.chance(1, 5)).unwrap_or(i);
                 let p = self.payload();
                 let ctx = if self.rng.chance(1, 5) { vec![7] } else { vec![] };
@@ -674,6 +859,7 @@ impl Sim {
                     self.pt.crash(nid);
                     self.nodes[i].async_pending.clear();
                     self.nodes[i].to_apply.clear();
+                    self.lose_unsynced(i);
                     let id = self.nodes[i].id;
                     self.note(|| format!("{} crash", id));
                     self.with_mon(|m, s| m.on_crash(s, i));
